@@ -62,6 +62,8 @@ CFG = {
         "Swat4.C12.popMany_fed_witness",
         "Swat4.C12.never_queued_explicit_sys",
         "Swat4.C12.ready_past_expiry_only_implicit",
+        "Swat4.C12.facts_item_id_uses",
+        "Swat4.C12.facts_pop_atomic",
     ],
     "shards": (4, 16),
     "nontrivial": _nontrivial,
